@@ -64,6 +64,8 @@ type dayAcc struct {
 
 var prevDayEndC1 = math.NaN()
 var prevDayEndZeit = -1
+var prevDayEndStorage = math.NaN()
+var prevDayEndGRW = math.NaN()
 
 func nsum(g *hermes.GlobalVarsMain) (c1, minp, minC1 float64) {
 	minC1 = math.Inf(1)
@@ -134,6 +136,19 @@ func traceLine(work, line string, lineNo int, r *rng, waterEvery int) {
 			}
 		case "evatra":
 			day = dayAcc{zeit: zeit, s0: storage(g, 0), fluss0: g.FLUSS0, grw0: g.GRW}
+			// C01: nothing creates or removes water between the end of one day and the start of the next
+			// (constant groundwater level; measurement-overwrite days excluded)
+			if prevDayEndZeit == zeit-1 && g.GRW == prevDayEndGRW {
+				isMeas := false
+				for _, m := range g.MESS {
+					if m == zeit && m != 0 {
+						isMeas = true
+					}
+				}
+				if !isMeas && !(math.Abs(day.s0-prevDayEndStorage) <= 1e-12*(1+math.Abs(day.s0))) {
+					oracleFail("day-boundary-storage line=%d zeit=%d end-of-yesterday=%v start-of-today=%v grw=%v", lineNo, zeit, prevDayEndStorage, day.s0, g.GRW)
+				}
+			}
 			day.wgStart = g.WG[0]
 			for _, m := range g.MESS {
 				if m == zeit && m != 0 {
@@ -187,6 +202,7 @@ func traceLine(work, line string, lineNo int, r *rng, waterEvery int) {
 					oracleFail("dissolved-exceeds-applied line=%d zeit=%d ums=%v dsumm=%v", lineNo, zeit, g.UMS, g.DSUMM)
 				}
 				prevDayEndC1, prevDayEndZeit = c1, zeit
+				prevDayEndStorage, prevDayEndGRW = storage(g, 1), g.GRW
 			}
 			s1 := storage(g, 1)
 			expect := day.s0 + day.fluss0*day.sumWdt - day.sumTP - day.sumQ - day.sumQD
